@@ -10,6 +10,20 @@ from . import zpath, env, realenv, sx
 from .zpath import Explorer, Ctx
 
 
+class HarnessBug(BaseException):
+    pass
+
+
+def _from_code_under_test(e, L):
+    tb = e.__traceback__
+    root = os.path.join(L.repo, 'diskcache')
+    while tb is not None:
+        if tb.tb_frame.f_code.co_filename.startswith(root):
+            return True
+        tb = tb.tb_next
+    return False
+
+
 class ObResult:
     def __init__(self, **kw):
         self.__dict__.update(kw)
@@ -88,14 +102,18 @@ def run(ob, L, budget_s=300, max_paths=None, page=1, batch=1, replay=True, label
             return ob(w)
         except (zpath.PathEnd, zpath.Inconclusive, env.Crash):
             raise
-        except Exception as e:  # an exception the obligation did not expect is a failed obligation
+        except Exception as e:
+            # an exception escaping from the code under test is a failed obligation; one raised by the
+            # scaffolding itself (no frame of the loaded diskcache modules on the stack) is a harness error
+            if not _from_code_under_test(e, L):
+                raise HarnessBug('%s: %s\n%s' % (type(e).__name__, e, traceback.format_exc(limit=6)))
             return False, {'clauses': [('unexpected exception: %s: %s' % (type(e).__name__, e), False)],
                            'traceback': traceback.format_exc(limit=8)}
 
     ex = Explorer(budget_s=budget_s, max_paths=max_paths, sample_vars=None)
     try:
         r = ex.run(fn)
-    except Exception as e:
+    except (Exception, HarnessBug) as e:
         return ObResult(status='error', detail='%s: %s' % (type(e).__name__, e), traceback=traceback.format_exc(), wall=time.time() - t0,
                         stats=ex.stats.as_dict(), flags=ex.flags)
     res = ObResult(status=r.status, stats=r.stats.as_dict(), flags=r.flags, wall=time.time() - t0, detail=r.info.get('reason', ''), cex=None)
@@ -133,6 +151,8 @@ def replay_real(ob, L, vals, page=1, batch=1):
         except (env.Crash, zpath.PathEnd) as e:
             return {'reproduced': False, 'error': 'replay aborted: %r' % (e,)}
         except Exception as e:
+            if not _from_code_under_test(e, L):
+                return {'reproduced': False, 'error': 'harness exception during replay: %s: %s' % (type(e).__name__, e), 'traceback': traceback.format_exc(limit=8)}
             return {'reproduced': True, 'failed': ['unexpected exception: %s: %s' % (type(e).__name__, e)], 'traceback': traceback.format_exc(limit=8)}
         f, info = out if isinstance(out, tuple) else (out, {})
         failed = []
